@@ -2503,7 +2503,7 @@ class CencSampleEncryptionBox(FullBox):
     }
     OBJECT_FIELDS.update(FullBox.OBJECT_FIELDS)
     REQUIRED_PEERS = ['saiz']
-    DEPENDS_UPON = {'moov', 'tenc'}
+    DEPENDS_UPON = {'moov', 'tenc', 'saiz'}
 
     @classmethod
     def parse(clz, src, parent, **kwargs):
